@@ -67,6 +67,13 @@ pub const LEAVES: &[(&str, &str)] = &[
     ("F:return-in-sourced-loop", ". ./ret.sh"),
     ("F:eval-syntax-error", "eval 'if'"),
     ("F:unset-readonly", "readonly ro2; unset ro2"),
+    // a prefix assignment whose own evaluation fails, before the command runs
+    ("F:tmp-assign-arith-error", "x=$((1/0)) vtrue"),
+    ("F:tmp-assign-index-error", "ta[1/0]=x vtrue"),
+    ("F:tmp-assign-compound-to-element", "ta[0]=(1 2) vtrue"),
+    ("F:tmp-assign-bad-substitution", "x=${y!} vtrue"),
+    ("F:tmp-assign-error-builtin", "x=$((1/0)) echo b >/dev/null"),
+    ("F:tmp-assign-error-function", "fk() { :; }; x=$((1/0)) fk"),
 ];
 
 /// Contexts a command sequence is run in. The fault leaves end in different ways (status, control flow,
